@@ -1071,8 +1071,6 @@ func (fr *Frame) execAppend(ins *ssa.Call, st *State) {
 	s := fr.val(args[0])
 	et := args[0].Type().Underlying().(*types.Slice).Elem()
 	comp := vc.arrComp(et)
-	is := vc.isort()
-	es := vc.sortOf(et)
 	var tArr, tOff, n string
 	if isString(args[1].Type()) {
 		t := fr.val(args[1])
@@ -1085,10 +1083,19 @@ func (fr *Frame) execAppend(ins *ssa.Call, st *State) {
 		tArr = fmt.Sprintf("(select %s (sl_ref %s))", vc.get(st, comp), t.S)
 		tOff = fmt.Sprintf("(sl_off %s)", t.S)
 	}
-	sRef := fmt.Sprintf("(sl_ref %s)", s.S)
-	sOff := fmt.Sprintf("(sl_off %s)", s.S)
-	sLen := fmt.Sprintf("(sl_len %s)", s.S)
-	sCap := fmt.Sprintf("(sl_cap %s)", s.S)
+	fr.bind(ins, fr.appendModel(s.S, et, tArr, tOff, n, st))
+}
+
+// appendModel appends n elements (tArr[tOff..tOff+n)) to slice s and returns the resulting slice term.
+func (fr *Frame) appendModel(s string, et types.Type, tArr, tOff, n string, st *State) string {
+	vc := fr.vc
+	comp := vc.arrComp(et)
+	is := vc.isort()
+	es := vc.sortOf(et)
+	sRef := fmt.Sprintf("(sl_ref %s)", s)
+	sOff := fmt.Sprintf("(sl_off %s)", s)
+	sLen := fmt.Sprintf("(sl_len %s)", s)
+	sCap := fmt.Sprintf("(sl_cap %s)", s)
 	newLen := vc.fresh("alen")
 	vc.define(newLen, is, vc.iadd(sLen, n))
 	inplace := vc.fresh("inplace")
@@ -1112,8 +1119,7 @@ func (fr *Frame) execAppend(ins *ssa.Call, st *State) {
 	vc.assume(and(vc.ile(newLen, ncap), vc.ilt(ncap, vc.ilit(1<<46))))
 	cur := vc.get(st, comp)
 	vc.set(st, comp, fmt.Sprintf("(ite %s (store %s %s %s) (store %s %s %s))", inplace, cur, sRef, a1, cur, r, a2))
-	fr.bind(ins, fmt.Sprintf("(ite %s %s %s)", inplace, vc.mkSlice(sRef, sOff, newLen, sCap), vc.mkSlice(r, vc.ilit(0), newLen, ncap)))
-	// appending to a nil/empty-capacity slice with n == 0 keeps it; Go returns s unchanged if n == 0 — same as in-place.
+	return fmt.Sprintf("(ite %s %s %s)", inplace, vc.mkSlice(sRef, sOff, newLen, sCap), vc.mkSlice(r, vc.ilit(0), newLen, ncap))
 }
 
 func (fr *Frame) execCopy(ins *ssa.Call, st *State) {
@@ -1147,6 +1153,10 @@ func (fr *Frame) execCopy(ins *ssa.Call, st *State) {
 	vc.assume(fmt.Sprintf("(forall ((j %s)) (! (= (select %s j) (ite %s (select %s %s) (select %s j))) :pattern ((select %s j))))",
 		is, a, and(vc.ile(dOff, "j"), vc.ilt("j", vc.iadd(dOff, n))), sArr, vc.iadd(sOff, vc.isub("j", dOff)), oldArr, a))
 	vc.set(st, comp, fmt.Sprintf("(store %s %s %s)", vc.get(st, comp), dRef, a))
+	if lv, ok := fr.snaps()[args[0]]; ok {
+		// destination is a slice of an embedded array: write the result back into the array
+		vc.storeL(lv, a, st)
+	}
 	fr.bind(ins, n)
 }
 
